@@ -3,6 +3,8 @@
   (`Gotree.C06.removeTip`, `removeTips`, `removeTipsPinned`, `PruneFlags.names`).
 -/
 import Gotree.Lemmas.C06Flag
+import Gotree.Gen.C06Sites
+import Gotree.Lemmas.C06Index
 
 namespace Gotree.C06
 open Gotree Gotree.C14
@@ -547,5 +549,124 @@ example : t0.tipNames.Nodup ∧ ["b", "e"].Nodup ∧ ∀ n ∈ ["b", "e"], n ∈
 theorem specificTips_mem (ref comp : T) (n : String) :
     n ∈ specificTips ref comp ↔ n ∈ ref.tipNames ∧ n ∉ comp.tipNames := by
   simp [specificTips, nodeTipNames]
+
+/- ## the branch indexes after pruning (`UpdateTipIndex`, `ReinitInternalIndexes` → `UpdateBitSet`) -/
+
+/-- What the model of `UpdateBitSet` / `fillRightBitSet` computes: against an index without repetition that
+    knows every tip below the root, the bitset of every branch (rows in `Edges()` order) is the characteristic
+    vector of the tips below it — bit `tipid(q)` is set iff `q` is below the branch. -/
+theorem bitsets_spec (ix : Index) (t : T) (hnd : ix.Nodup) (hall : ∀ n ∈ leavesL t.kids, n ∈ ix) :
+    bitsets ix t = some (t.splits.map fun s => rowOf ix s.below) := by
+  simp [bitsets, T.splits, fillK_spec ix hnd t.kids hall]
+
+/-- ★ clause 6 for the branch indexes: after a successful `RemoveTips` (model), the refresh at its end
+    (tip index first, bitsets against it) leaves on every branch of the pruned tree the split it induces on the
+    NEW tip set, as a bitset of exactly as many bits as there are tips left. -/
+theorem removeTips_bitsets (t : T) (S : List String) (rev : Bool) (t' : T) (ix : Index)
+    (h : removeTips rev S t = .ok (t', ix)) :
+    bitsetsAfter t' = some (t'.splits.map fun s => rowOf ix s.below) ∧ ix.length = t'.tipNames.length ∧
+      (∀ q, q ∈ ix ↔ q ∈ t'.tipNames) := by
+  unfold removeTips at h
+  cases hl : removeLoopR t.rooted (workList t S rev) t with
+  | error e => rw [hl] at h; cases h
+  | ok t'' =>
+    rw [hl] at h
+    by_cases hd : hasDup t''.tipNames = true
+    · simp [updateTipIndex, hd] at h
+    · have hd' : hasDup t''.tipNames = false := by simpa using hd
+      simp [updateTipIndex, hd'] at h
+      obtain ⟨rfl, rfl⟩ := h
+      have hnd : (sortNames t''.tipNames).Nodup :=
+        (List.mergeSort_perm _ _).nodup_iff.2 ((hasDup_false_iff _).1 hd')
+      have hall : ∀ n ∈ leavesL t''.kids, n ∈ sortNames t''.tipNames := fun n hn =>
+        mem_sortNames6.2 (by simp [T.tipNames, hn])
+      refine ⟨?_, (List.mergeSort_perm _ _).length_eq, fun q => mem_sortNames6⟩
+      simp [bitsetsAfter, updateTipIndex, hd', bitsets_spec _ t'' hnd hall]
+
+/-- … and these rows satisfy the predicate the oracle applies to the implementation's raw bitsets
+    (`Spec.bitsetsOK`, with `TipIndex(q)` = rank of `q` in the index): the model of the refresh meets the Spec. -/
+theorem removeTips_bitsetsOK (t : T) (S : List String) (rev : Bool) (t' : T) (ix : Index)
+    (h : removeTips rev S t = .ok (t', ix)) (rows : List (List Bool)) (hr : bitsetsAfter t' = some rows) :
+    bitsetsOK t' ix ((List.range ix.length).map fun (i : Nat) => Int.ofNat i) (rows.map some) = true := by
+  obtain ⟨h1, h2, _⟩ := removeTips_bitsets t S rev t' ix h
+  rw [h1] at hr
+  cases hr
+  exact rows_bitsetsOK t' ix h2
+
+/-- `t0` minus `a` is `(c,d,e,b)`; against the new index `[b,c,d,e]` the four tip branches, in `Edges()` order,
+    carry one bit each -/
+example :
+    (match removeLoopR t0.rooted (workList t0 ["a"] false) t0 with
+     | .ok t' => t'.tipNames == ["c", "d", "e", "b"] &&
+         bitsets ["b", "c", "d", "e"] t' == some [[false, true, false, false], [false, false, true, false],
+           [false, false, false, true], [true, false, false, false]]
+     | .error _ => false) = true := by decide
+
+/-- the two refreshes in the other order (seeded C06-5: bitsets built against the index as it was before the
+    call, `[a,b,c,d,e]`): on `t0` minus `a` the rows keep the old width 5 for 4 tips left, and bit `tipid` of a
+    tip under the NEW index (`b` ↦ 0) is not the bit set on its branch -/
+theorem removeTips_bitsets_swapped_fails :
+    (match removeLoopR t0.rooted (workList t0 ["a"] false) t0 with
+     | .ok t' =>
+       t'.tipNames.length == 4 &&
+       bitsetsAfterSwapped ["a", "b", "c", "d", "e"] t' == some [[false, false, true, false, false],
+         [false, false, false, true, false], [false, false, false, false, true], [false, true, false, false, false]] &&
+       bitsetsAfterSwapped ["a", "b", "c", "d", "e"] t' != bitsets ["b", "c", "d", "e"] t'
+     | .error _ => false) = true := by decide
+
+/- ## the table regenerated from the source (`Gotree/Gen/C06Sites.lean`, harness/c06/extract.go) -/
+
+open Sites Gen.C06Sites in
+/-- `RemoveTips` in the source: `rooted := t.Rooted()` before the loop, the loop over `t.Tips()` with the
+    "is not a tip" guard, one selection condition (its VALUE is `sites_select`), `removeTip(tip, rooted)`, and after the loop
+    `UpdateTipIndex()` BEFORE `ReinitInternalIndexes()` — what `removeTips` / `removeLoopR` / `workList` assume. -/
+theorem sites_removeTips_check :
+    rtPre = expRtPre ∧ rtRange = expRtRange ∧ rtGuards = expRtGuards ∧ rtSelect.length = 1 ∧
+    rtCallArgs = expRtCallArgs ∧ rtPost = expRtPost := by decide +kernel
+
+open Sites Gen.C06Sites in
+/-- `removeTip` in the source: the five top-level tests (case 2 with the rooted-root exception), the chain loop of
+    case 1, the length and support given to the merged branch, who is connected below whom, the new root —
+    what `finishNode`, `rootAfterLoss`, `removeTipR` and `fuseEdge` assume. -/
+theorem sites_removeTip_check :
+    tipIfs = expTipIfs ∧ tipChain = expTipChain ∧ tipSetLength = expSetLength ∧ tipSetSupport = expSetSupport ∧
+    tipConnectNodes = expConnect ∧ tipSetRoot = expSetRoot := by decide +kernel
+
+open Sites Gen.C06Sites in
+/-- the sentinels of tree/edge.go are `-1`, the model's `NIL` -/
+theorem sites_consts_check :
+    (["NIL_SUPPORT", "NIL_LENGTH"].all fun n => (consts.lookup n).bind litRat? == some NIL) = true := by
+  decide +kernel
+
+open Sites Gen.C06Sites in
+/-- cmd/prune.go in the source: the reads before the loop, the chain choosing the names, the loop body (a failure
+    stops the command, the result is written at once), the flags with their defaults, `specificTips`. -/
+theorem sites_prune_check :
+    pruneReads = expPruneReads ∧ pruneRange = expPruneRange ∧ pruneChain = expPruneChain ∧
+    pruneBody = expPruneBody ∧ pruneFlags = expPruneFlags ∧
+    specParams = expSpecParams ∧ specRanges = expSpecRanges ∧ specConds = expSpecConds := by decide +kernel
+
+open Sites in
+/-- The selection condition FOUND IN THE SOURCE, evaluated: a tip is removed iff `(its name is listed) ≠ revert`,
+    which is the decision `workList` / `toRemove` take and the complement of `kept`. -/
+theorem sites_select (revert ok : Bool) :
+    Gen.C06Sites.rtSelect.map (Ex.eval (ρSelect revert ok)) = [some (ok != revert)] := by
+  cases revert <;> cases ok <;> decide +kernel
+
+open Sites in
+/-- The chain FOUND IN THE SOURCE, evaluated on the flags: the call it reaches is the one of the model's
+    `PruneFlags.source` (priority -f > -c > --random > arguments). -/
+theorem sites_source (f : PruneFlags) :
+    pick (ρFlags f.tipfile.isSome f.comp.isSome (decide (f.random > 0))) Gen.C06Sites.pruneChain =
+      some (callOf f.source) := by
+  have key : ∀ a b c : Bool, pick (ρFlags a b c) Gen.C06Sites.pruneChain =
+      some (callOf (if a then .file else if b then .comp else if c then .random else .args)) := by
+    decide +kernel
+  rw [key]
+  unfold PruneFlags.source
+  cases f.tipfile.isSome <;> cases f.comp.isSome <;> by_cases h : f.random > 0 <;> simp [h]
+
+example : (⟨none, some t0, 3, ["a"], true⟩ : PruneFlags).source = .comp := by decide
+
 
 end Gotree.C06
